@@ -22,8 +22,8 @@ CONSTANTS MaxCalls,     \* length of a call sequence
 
 Allowed == {"ok", "err"}
 
-VARIABLES closed, txn, sps, h1, uExists, marked, hist, fin
-vars == <<closed, txn, sps, h1, uExists, marked, hist, fin>>
+VARIABLES closed, txn, sps, h1, uExists, uCols, marked, hist, fin
+vars == <<closed, txn, sps, h1, uExists, uCols, marked, hist, fin>>
 
 Null == [null |-> TRUE]
 PVal(ty, i) == CASE ty = "int"   -> 100 + i
@@ -134,11 +134,12 @@ Sit(c) ==
   \cup (IF c.k = "batch" THEN {"batch_api"} ELSE {})
   \cup (IF c \in AdminCalls THEN {"pragma"} ELSE {})
   \cup (IF marked /\ c \in MarkCalls \ {MarkWrite} THEN {"read_of_marker_like_value"} ELSE {})
+  \cup (IF uCols # "orig" /\ uExists /\ (c \in DmlCalls \/ c.k \in {"params", "prepared"}) THEN {"rows_older_than_schema"} ELSE {})
 
 Without(s, name) == LET idx == {i \in 1..Len(s) : s[i] = name} IN
                     IF idx = {} THEN s ELSE SubSeq(s, 1, (CHOOSE i \in idx : \A k \in idx : k <= i) - 1)
 
-Init == closed = FALSE /\ txn = FALSE /\ sps = <<>> /\ h1 = "none" /\ uExists = TRUE /\ marked = FALSE /\ hist = <<>> /\ fin = FALSE
+Init == closed = FALSE /\ txn = FALSE /\ sps = <<>> /\ h1 = "none" /\ uExists = TRUE /\ uCols = "orig" /\ marked = FALSE /\ hist = <<>> /\ fin = FALSE
 
 Call(c) ==
   /\ Len(hist) < MaxCalls /\ UNCHANGED fin
@@ -155,17 +156,21 @@ Call(c) ==
              ELSE sps)
   /\ h1' = (IF c.k = "clone" THEN "open" ELSE IF c.k = "drop_handle" \/ c.k \in {"reopen", "close_reopen"} THEN "none" ELSE h1)
   /\ marked' = (marked \/ c = MarkWrite)
+  \* rows written before a column was added / dropped are read with the new schema afterwards
+  /\ uCols' = (IF IsSql(c, "ALTER TABLE u ADD COLUMN z INT") /\ uCols = "orig" THEN "added"
+               ELSE IF IsSql(c, "ALTER TABLE u DROP COLUMN tid") /\ uCols = "orig" THEN "dropped"
+               ELSE IF c.k \in {"reopen", "close_reopen"} \/ IsSql(c, "DROP TABLE u") THEN uCols ELSE uCols)
   /\ uExists' = (IF IsSql(c, "DROP TABLE u") \/ IsSql(c, "ALTER TABLE u RENAME TO u9") \/ IsSql(c, "DROP SCHEMA root") THEN FALSE
                  ELSE IF IsSql(c, "CREATE TABLE u (id INT PRIMARY KEY, i INT UNIQUE, tx TEXT NOT NULL, tid BIGINT)") THEN TRUE ELSE uExists)
 
 \* the sequence is complete and is handed over for execution
 Finish == /\ Len(hist) = MaxCalls /\ ~fin /\ fin' = TRUE
-          /\ UNCHANGED <<closed, txn, sps, h1, uExists, marked, hist>>
+          /\ UNCHANGED <<closed, txn, sps, h1, uExists, uCols, marked, hist>>
 Next == (\E c \in Calls : Call(c)) \/ Finish
 Spec == Init /\ [][Next]_vars
 
 \* meta-properties of the model
-TypeOK == /\ closed \in BOOLEAN /\ txn \in BOOLEAN /\ uExists \in BOOLEAN /\ marked \in BOOLEAN /\ h1 \in {"none", "open"}
+TypeOK == /\ closed \in BOOLEAN /\ txn \in BOOLEAN /\ uExists \in BOOLEAN /\ marked \in BOOLEAN /\ uCols \in {"orig", "added", "dropped"} /\ h1 \in {"none", "open"}
           /\ Len(hist) <= MaxCalls /\ Len(sps) <= MaxCalls
           /\ \A i \in 1..Len(sps) : sps[i] \in {"a", "b"}
 SavepointsOnlyInTxn == (sps # <<>>) => txn
